@@ -1,0 +1,37 @@
+//! Verification hooks, compiled only with `--cfg decaf377_verif`.
+//!
+//! `FqVarExtension::isqrt` computes its witness pair (was_square, y) out of circuit. To test
+//! soundness of the constraints against a malicious prover, a harness can queue substitute
+//! hint pairs here; each call of `isqrt` consumes one queued entry (`None` = keep the honest
+//! value) and records the `den` it was asked about.
+use crate::Fq;
+use ark_std::vec::Vec;
+use core::cell::RefCell;
+
+std::thread_local! {
+    static QUEUE: RefCell<Vec<Option<(bool, Fq)>>> = RefCell::new(Vec::new());
+    static SEEN: RefCell<Vec<(Fq, bool, Fq)>> = RefCell::new(Vec::new());
+}
+
+/// Replace the queue of substitute hints (consumed front to back).
+pub fn set_hints(hints: Vec<Option<(bool, Fq)>>) {
+    QUEUE.with(|q| {
+        let mut q = q.borrow_mut();
+        *q = hints;
+        q.reverse();
+    });
+    SEEN.with(|s| s.borrow_mut().clear());
+}
+
+/// The (den, honest was_square, honest y) of every `isqrt` call since the last `set_hints`.
+pub fn seen() -> Vec<(Fq, bool, Fq)> {
+    SEEN.with(|s| s.borrow().clone())
+}
+
+pub(crate) fn hint(den: Fq, was_square: bool, y: Fq) -> (bool, Fq) {
+    SEEN.with(|s| s.borrow_mut().push((den, was_square, y)));
+    match QUEUE.with(|q| q.borrow_mut().pop()) {
+        Some(Some(h)) => h,
+        _ => (was_square, y),
+    }
+}
